@@ -136,7 +136,7 @@ func Run(cs Case, c *vrt.Ctx) {
 		var v any
 		var evs []cmpx.Event
 		var perr error
-		pv, stack := vrt.Catch(func() { v, evs, perr = fe.f(append([]byte(nil), cs.Text...)) })
+		pv, stack := vrt.Catch(func() { v, evs, perr = fe.f(gx.Exact(cs.Text)) })
 		if pv != nil {
 			c.Fail("panic", fe.name, fmt.Sprintf("%v at %s on %q", pv, stack, cs.Text))
 			continue
